@@ -555,6 +555,8 @@ def run(ctx: Ctx, rep: Report, tier: str) -> None:  # noqa: C901
     _token_gates(ctx, rep, self_reach(pi), sorted(set(need)))
 
     renderer_falls_back(ctx, rep)
+    grammar_reads_protocols(ctx, rep, prot_tables)
+    tokens_are_the_words(ctx, rep)
     # R09.11 a platform switch re-reads text rendered under the NEW platform's tables (C02 R02.8): text rendered before the
     # switch carries the old platform's names, which the new platform's table may not have
     from .c02 import render_after_switch
@@ -676,6 +678,68 @@ def protocol_reader_writer(ctx: Ctx, rep: Report, prot_tables=None, platforms=No
                     rep.ok(f"{tname}[{name!r}] agrees with {pt}", "same number")
 
     return setter
+
+
+def grammar_reads_protocols(ctx: Ctx, rep: Report, prot_tables, rid: str = "R09.13") -> None:
+    """What `Protocol.line` writes, the ACE grammar reads: every protocol name of every table (and every number 0..255)
+    is matched as the protocol field of an extended entry (a field pattern of letters-or-digits refuses `icmp6`, `ipv6`)."""
+    import re as _re2
+
+    from .c01 import regex_pieces as _rp
+
+    rep.rule(rid)
+    pe2 = ctx.func("parsers.parse_ace_extended")
+    rep.instance()
+    try:
+        full, _pieces = _rp(ctx, pe2)
+        pat = _re2.compile(full)
+    except (AnalysisError, _re2.error):
+        rep.note(f"{rid} the pattern of parse_ace_extended could not be assembled (not judged; R01.1 reports it)")
+        return
+    names = sorted({nm for t in prot_tables.values() for nm in t})
+    tokens = names + ["0", "1", "6", "17", "58", "200", "255"]
+    rejected = []
+    for tok in tokens:
+        m = pat.match(f"permit {tok} any any")
+        if not m or tok not in [str(g or "").strip() for g in m.groups()]:
+            rejected.append(tok)
+    if rejected:
+        rep.violation("parsers.parse_ace_extended", f"protocol tokens {rejected[:8]}{'...' if len(rejected) > 8 else ''}", f"the ACE grammar does not read these protocol names / numbers as the protocol field ({len(rejected)} of {len(tokens)}): the line the renderer writes for them is refused", where(pe2), inp=f"Ace('permit {rejected[0]} any any')")
+    else:
+        rep.ok("parsers.parse_ace_extended: protocol field", f"all {len(names)} protocol names of the tables and the sample numbers are read as the protocol", where=where(pe2))
+
+
+def tokens_are_the_words(ctx: Ctx, rep: Report, rid: str = "R09.14") -> None:
+    """The port reader looks up the words of the text as they were written: between the parameter and the `.split()` that
+    makes the tokens the text passes through the package's normaliser only (no `.replace`, no substitution) - a rewrite
+    of '-' or '_' tears hyphenated names (`ftp-data`) apart, but only on the path that has it."""
+    rep.rule(rid)
+    f = ctx.func("Port.line.setter")
+    param = f.params[1]
+    splits = [x for x in own_nodes(f.node) if isinstance(x, ast.Call) and isinstance(x.func, ast.Attribute) and x.func.attr == "split" and isinstance(x.func.value, ast.Name)]
+    rep.instance()
+    rep.require(bool(splits), "Port.line setter no longer splits its text into tokens")
+    bad = None
+    for sp_ in splits:
+        var = sp_.func.value.id
+        for n in own_nodes(f.node):
+            if isinstance(n, (ast.Assign, ast.AnnAssign, ast.AugAssign)) and n.value is not None:
+                t = n.targets[0] if isinstance(n, ast.Assign) else n.target
+                if isinstance(t, ast.Name) and t.id == var:
+                    v = n.value
+                    ok = False
+                    if isinstance(v, ast.Call) and isinstance(v.func, (ast.Attribute, ast.Name)):
+                        nm = v.func.attr if isinstance(v.func, ast.Attribute) else v.func.id
+                        if nm.startswith("init_") or nm in ("replace_spaces", "strip", "lstrip", "rstrip", "str"):
+                            ok = all(isinstance(a, ast.Name) and a.id in (var, param) for a in v.args) and (not isinstance(v.func, ast.Attribute) or nm.startswith("init_") or nm == "replace_spaces" or src(v.func.value) in (var, param))
+                    if isinstance(v, ast.Name) and v.id in (var, param):
+                        ok = True
+                    if not ok:
+                        bad = bad or n
+    if bad is not None:
+        rep.violation("Port.line.setter", snippet(bad, 60), "the text is rewritten before it is split into tokens: a token the writer renders (a hyphenated port name after `range`) no longer reaches the name table as it was written", where(f, bad), inp="Port('range 20 21', protocol='tcp').line == 'range ftp-data ftp' is refused")
+    else:
+        rep.ok("Port.line setter: tokens", "the normalised text split at blanks, nothing rewritten", where=where(f, splits[0]))
 
 
 def renderer_falls_back(ctx: Ctx, rep: Report, rid: str = "R09.10") -> None:
